@@ -20,6 +20,7 @@ import (
 	"fmt"
 	"net"
 	"net/http"
+	"net/http/httptrace"
 	"runtime"
 	"strings"
 	"sync"
@@ -136,8 +137,9 @@ func settingsFrame(ss ...http2.Setting) []byte {
 
 type seqStep struct {
 	Sc        scenario `json:"sc"`
-	Kind      string   `json:"kind"` // plain | oversized | fault
+	Kind      string   `json:"kind"` // plain | oversized | fault | cancel
 	FailAfter int      `json:"fail_after,omitempty"`
+	CancelAt  string   `json:"cancel_at,omitempty"` // got-conn | field:N | wrote-headers | wrote-request | first-byte
 }
 
 type seqScenario struct {
@@ -182,7 +184,7 @@ func genSeq(r *hk.Rand, proto, idx int) seqScenario {
 	}
 	n := r.Range(3, 6)
 	special := -1
-	if proto != 3 && r.Chance(75) {
+	if r.Chance(78) {
 		// never the last (the steps after it are the point), never the first (a new connection
 		// learns the peer's SETTINGS while its first request is already on its way)
 		special = r.Range(1, n-2)
@@ -192,6 +194,15 @@ func genSeq(r *hk.Rand, proto, idx int) seqScenario {
 		st := seqStep{Sc: cur, Kind: "plain"}
 		if k == special {
 			switch {
+			case proto == 3 || r.Chance(38):
+				// the caller gives the request up at a chosen moment of its life: while the connection is
+				// handed over, in the middle of its header fields (between encoding and writing them), right
+				// after the header, after the whole request, at the first byte of the answer
+				st.Kind = "cancel"
+				st.CancelAt = hk.Pick(r, []string{"got-conn", "field", "field", "field", "field", "field", "wrote-headers", "wrote-request", "first-byte"})
+				if st.CancelAt == "field" {
+					st.CancelAt = fmt.Sprintf("field:%d", r.Range(1, 12))
+				}
 			case proto == 2 && r.Chance(65):
 				// around the advertised limit: clearly over, or within a few bytes of it
 				st.Kind = "oversized"
@@ -286,6 +297,47 @@ func runSeq(r *hk.Run, sq seqScenario, o *origin.Origin, seqNo int) []stepResult
 		if st.Kind == "fault" {
 			d.arm(st.FailAfter)
 		}
+		cancel := func() {}
+		if st.Kind == "cancel" {
+			var ctx context.Context
+			ctx, cancel = context.WithCancel(context.Background())
+			at, nth := st.CancelAt, 0
+			if strings.HasPrefix(at, "field:") {
+				fmt.Sscanf(at, "field:%d", &nth)
+				at = "field"
+			}
+			seen := 0
+			trace := &httptrace.ClientTrace{
+				GotConn: func(httptrace.GotConnInfo) {
+					if at == "got-conn" {
+						cancel()
+					}
+				},
+				WroteHeaderField: func(string, []string) {
+					seen++
+					if at == "field" && seen == nth {
+						cancel()
+					}
+				},
+				WroteHeaders: func() {
+					if at == "wrote-headers" || at == "field" { // fewer fields than N: at the end of the header
+						cancel()
+					}
+				},
+				WroteRequest: func(httptrace.WroteRequestInfo) {
+					if at == "wrote-request" {
+						cancel()
+					}
+				},
+				GotFirstResponseByte: func() {
+					if at == "first-byte" {
+						cancel()
+					}
+				},
+			}
+			tctx := httptrace.WithClientTrace(ctx, trace)
+			reqHook = func(rq *req.Request) { rq.SetContext(tctx) }
+		}
 		*capt = captured{}
 		var obs origin.Obs
 		var err error
@@ -298,6 +350,8 @@ func runSeq(r *hk.Run, sq seqScenario, o *origin.Origin, seqNo int) []stepResult
 			obs, err = sendOn(c, st.Sc, o, fmt.Sprintf("/c16?s=%d&k=%d", seqNo, k))
 		}()
 		d.arm(-1)
+		reqHook = nil
+		cancel()
 		res := stepResult{obs: obs, capt: *capt}
 		switch {
 		case err == nil:
